@@ -84,8 +84,12 @@ static double rank_val(int r) { return (r - 2) * 0.75; }
 // the values; an implementation that looks at magnitudes or differences (absolute tolerances, float casts ...) does
 // not, so every weak order / stream / permutation is also enumerated through maps that produce denormal-scale values,
 // values far below eps, adjacent doubles (below 0.5 and above 1, the latter decreasing) and huge values.
-static const int NMAP = 6;
-static const char* MAPN[NMAP] = {"plain", "r*1e-18", "1e-300*(r+1)", "0.25+r*2^-54", "-(1+r*eps)", "r*1e300/8"};
+// Maps 6..10 change the UNIT of the data: plain * 2^k (exact), k in {-1000, -540, -300, +300, +1000}: order statistics and
+// rank correlations do not depend on the unit, products / squares / casts of the values do.
+static const int NMAP = 11;
+static const char* MAPN[NMAP] = {"plain", "r*1e-18", "1e-300*(r+1)", "0.25+r*2^-54", "-(1+r*eps)", "r*1e300/8",
+                                 "plain*2^-1000", "plain*2^-540", "plain*2^-300", "plain*2^300", "plain*2^1000"};
+static const int MAPK[NMAP] = {0, 0, 0, 0, 0, 0, -1000, -540, -300, 300, 1000};
 static double vmap(int m, int r, double plain) {
     switch (m) {
     case 0: return plain;
@@ -93,7 +97,8 @@ static double vmap(int m, int r, double plain) {
     case 2: return 1e-300 * (r + 1);
     case 3: return 0.25 + r * 0x1p-54;
     case 4: return -(1.0 + r * EPS);
-    default: return r * (1e300 / 8);
+    case 5: return r * (1e300 / 8);
+    default: return std::ldexp(plain, MAPK[m]);
     }
 }
 
@@ -873,6 +878,101 @@ static void run_kendall_big(Ctx& ctx, bool T) {
     }
 }
 
+// ---------------------------------------------------------------------------------------------- corr: independence of the unit
+// Every pair of permutations (x, y) is evaluated with each of the 10 non-plain value maps applied to x, to y and to both.
+// Spearman's rho and Kendall's tau depend only on the two orders: the value for the mapped data must equal the reference of
+// the plain pair (sign flipped once per decreasing map), within the usual rounding tolerance (the library is also expected to
+// return identical bits; that is counted, not judged).  Pearson's r is invariant under positive scaling, but its moment
+// formula squares the data and multiplies the two variances: it is judged only where x^2, y^2, the variances and their
+// product stay inside [1e-290, 1e290] (which excludes the units 2^+-540, 2^+-1000 and 2^+-300 on both samples) and where
+// the condition-aware tolerance is meaningful (< 1e-3); outside that range the outcome is only counted.
+static void run_corr_units(Ctx& ctx, bool T) {
+    if (!ctx.wants("corr.units")) return;
+    const char* TYN[3] = {"pearson", "spearman", "kendall"};
+    const Correlation TYS[3] = {Correlation::Pearson, Correlation::Spearman, Correlation::Kendall};
+    for (int n = 2; n <= 7; ++n) {
+        std::vector<int> px((size_t)n);
+        for (int i = 0; i < n; ++i) px[(size_t)i] = i;
+        long long ord = 0, total = 1;
+        for (int i = 2; i <= n; ++i) total *= i;
+        do {
+            // quick: every x-permutation for n <= 5; for n = 6, 7 the identity, the reversal and every 90th / 720th permutation
+            const long long o = ord++;
+            if (!T && n >= 6 && !(o == 0 || o == total - 1 || o % (n == 6 ? 90 : 720) == 0)) continue;
+            if (!ctx.take("corr.units", P().kv("n", n).kv("x", digits(px)))) continue;
+            if (n >= 3) ctx.nontrivial();
+            std::map<std::string, bool> reported;
+            std::vector<int> py((size_t)n);
+            for (int i = 0; i < n; ++i) py[(size_t)i] = i;
+            long long calls = 0;
+            do {
+                // plain letters: x = r + 1, y = r + 0.5 (non-zero, tie-free)
+                std::vector<double> x0(n), y0(n);
+                for (int i = 0; i < n; ++i) {
+                    x0[(size_t)i] = px[(size_t)i] + 1.0;
+                    y0[(size_t)i] = py[(size_t)i] + 0.5;
+                }
+                const ld rho0 = pearson_ref(ranks_ref(x0), ranks_ref(y0)), tau0 = kendall_ref(x0, y0);
+                for (int m = 1; m < NMAP; ++m)
+                    for (int side = 0; side < 3; ++side) {   // 0: x mapped, 1: y mapped, 2: both
+                        std::vector<double> x = x0, y = y0;
+                        for (int i = 0; i < n; ++i) {
+                            if (side != 1) x[(size_t)i] = vmap(m, px[(size_t)i], x0[(size_t)i]);
+                            if (side != 0) y[(size_t)i] = vmap(m, py[(size_t)i], y0[(size_t)i]);
+                        }
+                        const arr_real ax = mk(x), ay = mk(y);
+                        const int flips = (m == 4) ? (side == 2 ? 2 : 1) : 0;   // map 4 is decreasing
+                        const double sgn = (flips == 1) ? -1.0 : 1.0;
+                        for (int ty = 0; ty < 3; ++ty) {
+                            const double got = dsplib::corr(ax, ay, TYS[ty]);
+                            ++calls;
+                            ld ref;
+                            double tol;
+                            bool judged = true;
+                            if (ty == 0) {
+                                ld sx = 0, sy = 0, qx = 0, qy = 0, mxx = 0, myy = 0;
+                                for (int i = 0; i < n; ++i) {
+                                    sx += x[(size_t)i];
+                                    sy += y[(size_t)i];
+                                    qx += (ld)x[(size_t)i] * x[(size_t)i];
+                                    qy += (ld)y[(size_t)i] * y[(size_t)i];
+                                    mxx = std::max(mxx, (ld)x[(size_t)i] * x[(size_t)i]);
+                                    myy = std::max(myy, (ld)y[(size_t)i] * y[(size_t)i]);
+                                }
+                                const ld vx = n * qx - sx * sx, vy = n * qy - sy * sy;
+                                auto inr = [](ld v) { return fabsl(v) >= 1e-290L && fabsl(v) <= 1e290L; };
+                                judged = inr(mxx) && inr(myy) && inr(vx) && inr(vy) && inr(vx * vy) && inr(qx * qy);
+                                ref = judged ? pearson_ref(x, y) : 0;
+                                tol = judged ? 16 * EPS * n * pearson_kappa(x, y) : 0;
+                                if (judged && !(tol < 1e-3)) judged = false;
+                                ctx.note(judged ? "corr.units pearson judged" : (std::isfinite(got) ? "corr.units pearson outside the representable range of the moment formula: finite result (not judged)"
+                                                                                                   : "corr.units pearson outside the representable range of the moment formula: non-finite result (not judged)"));
+                            } else if (ty == 1) {
+                                ref = sgn * rho0;
+                                tol = 16 * EPS * n * 4;
+                            } else {
+                                ref = sgn * tau0;
+                                tol = 8 * EPS;
+                            }
+                            if (!judged) continue;
+                            const double err = std::isfinite(got) ? std::fabs((double)((ld)got - ref)) : INFINITY;
+                            if (err <= tol) {
+                                ctx.worst(std::string("corr.units ") + TYN[ty] + " |err|/tol (passing cases)", tol > 0 ? err / tol : 0.0);
+                                continue;
+                            }
+                            const std::string key = std::string(TYN[ty]) + "/" + MAPN[m];
+                            if (reported[key]) continue;
+                            reported[key] = true;
+                            ctx.fail("corr", fmt("corr(%s)=%.17g with y=%s, map %s on %s", TYN[ty], got, digits(py).c_str(), MAPN[m], side == 0 ? "x" : (side == 1 ? "y" : "x and y")),
+                                     fmt("%.17Lg +- %.3g (independent of the unit)", ref, tol), P().kv("type", TYN[ty]).kv("map", MAPN[m]).kv("side", side).kv("y", digits(py)));
+                        }
+                    }
+            } while (std::next_permutation(py.begin(), py.end()));
+            ctx.note("corr.units corr calls", calls);
+        } while (std::next_permutation(px.begin(), px.end()));
+    }
+}
+
 int main(int argc, char** argv) {
     Ctx ctx;
     ctx.parse(argc, argv, "C16");
@@ -882,6 +982,7 @@ int main(int argc, char** argv) {
     run_corr(ctx, T);
     run_corr_large(ctx, T);
     run_kendall_big(ctx, T);
+    run_corr_units(ctx, T);
     if (T) run_corr_n7(ctx);
     if (T) run_corr_n8(ctx);
     return ctx.finish();
